@@ -192,13 +192,16 @@ def check(prop, tier, only):
     if not only and not viol:
         c = counters["conc"]
         for k in ("adoptions_of_an_existing_stack", "creations_of_a_new_stack", "acquisitions_overlapping_another",
-                  "reacquisitions_after_initializer_destroyed", "scopes_unwinding_over_a_block_boundary"):
+                  "reacquisitions_after_initializer_destroyed", "scopes_unwinding_over_a_block_boundary",
+                  "releases_checked_of_a_stack_that_had_grown"):
             if c.get(k, 0) == 0:
                 errors.append(f"vacuous: concurrent part never saw '{k}'")
         if c.get("atomic_operations_as_scheduling_points", 0) == 0:
             errors.append("vacuous: the <atomic> shim produced no scheduling point")
         if c.get("max_stacks_in_list", 0) < 2:
             errors.append("vacuous: no execution with two stacks in the list")
+        if counters["seq-rwd"].get("releases_checked_of_a_stack_that_had_grown", 0) == 0:
+            errors.append("vacuous: sequential part seq-rwd never released a stack that had grown")
         for ck in ("seq-rwd", "seq-tm1"):
             c = counters[ck]
             for k in ("scopes_in_which_the_stack_grew_at_least_twice", "reacquisitions_after_initializer_destroyed",
@@ -227,7 +230,7 @@ def check(prop, tier, only):
                        "transitions = scheduling decisions executed; traces = complete executions, each in its own forked process on the real code "
                        "including thread exit and program exit. Oracles: no stack is the current stack of two live threads (checked before every atomic "
                        "operation and after every step); stack top/marker/active-allocator restored by every ~temporary_allocator, allocations inside the "
-                       "stack's outstanding blocks; a new stack object is only allocated when fewer stacks were free than acquisitions overlapped; all "
+                       "stack's outstanding blocks; at the store that marks a stack free its arena caches no block (released only after it was cleared); a new stack object is only allocated when fewer stacks were free than acquisitions overlapped; all "
                        "stacks free once all threads finished; heap balance zero and no leak-handler / invalid-pointer-handler call at program exit; no "
                        "abort, crash, deadlock, livelock. Sequential part: states = distinct (model, block index, top offset, cache) tuples; every "
                        "sequence on the real code in configurations rwd (mode 2) and tm1 (mode 1).",
